@@ -103,6 +103,7 @@ func enginePAIR(w *World, tier string) *EngineResult {
 	// (a) restore closures
 	nAcq := 0
 	for _, fn := range w.Funcs {
+		siteOrd := map[string]int{}
 		for _, b := range fn.Blocks {
 			for i, ins := range b.Instrs {
 				c, ok := ins.(*ssa.Call)
@@ -125,6 +126,10 @@ func enginePAIR(w *World, tier string) *EngineResult {
 				}
 				nAcq++
 				construct := "restore closure from " + cal.Name()
+				siteOrd[construct]++
+				if siteOrd[construct] > 1 {
+					construct = fmt.Sprintf("%s#%d", construct, siteOrd[construct])
+				}
 				pos := w.pos(instrPos(c))
 				// the closure value(s)
 				var clo ssa.Value = c
@@ -171,12 +176,79 @@ func enginePAIR(w *World, tier string) *EngineResult {
 					}
 					return false
 				}
+				orderBad := ""
 				if isSlice {
+					// cells the slice is stored into (captured variables)
+					cells := map[ssa.Value]bool{}
+					for _, ref := range *clo.Referrers() {
+						if st, ok := ref.(*ssa.Store); ok && st.Val == clo {
+							cells[st.Addr] = true
+						}
+					}
+					// a closure that captures the slice and calls its elements releases them when it
+					// is called or deferred; it runs them in forward (acquisition) order
+					closureRelease := func(v ssa.Value) bool {
+						mc, ok := v.(*ssa.MakeClosure)
+						if !ok {
+							return false
+						}
+						cf := mc.Fn.(*ssa.Function)
+						for bi, bnd := range mc.Bindings {
+							if !(cells[bnd] || derivesFrom(bnd, clo, 0)) {
+								continue
+							}
+							fv := cf.FreeVars[bi]
+							for _, cb := range cf.Blocks {
+								for _, ci := range cb.Instrs {
+									if call, ok := ci.(*ssa.Call); ok && call.Call.StaticCallee() == nil && derivesFrom(call.Call.Value, fv, 0) {
+										backward := false
+										// a manual loop counting down is last-in-first-out
+										for _, l := range findLoops(cf) {
+											if l.body[cb] && !isRangeLoop(l) {
+												backward = true
+											}
+										}
+										if !backward {
+											orderBad = "the restore closures are run in one deferred function in acquisition order (first-in-first-out) at " + w.pos(instrPos(call)) + ": when two of them restore the same variable, the later snapshot (taken after the first narrowing) overwrites the original type"
+										}
+										return true
+									}
+								}
+							}
+						}
+						return false
+					}
+					base := isRelease
+					isRelease = func(x ssa.Instruction) bool {
+						switch y := x.(type) {
+						case *ssa.Defer:
+							if closureRelease(y.Call.Value) {
+								return true
+							}
+						case *ssa.Call:
+							if closureRelease(y.Call.Value) {
+								return true
+							}
+							// an immediate call of each element inside a forward range loop
+							if !y.Call.IsInvoke() && y.Call.StaticCallee() == nil && derivesFrom(y.Call.Value, clo, 0) {
+								for d := y.Block(); d != nil; d = d.Idom() {
+									if strings.HasPrefix(d.Comment, "rangeindex.loop") {
+										orderBad = "the restore closures are called in acquisition order (first-in-first-out) at " + w.pos(instrPos(y)) + ": a later snapshot overwrites the original value of a variable restored twice"
+										break
+									}
+								}
+							}
+						}
+						return base(x)
+					}
 					// release = entering a range loop over the slice whose body calls/defers each element
 					loopHeads := map[*ssa.BasicBlock]bool{}
 					for _, bb := range fn.Blocks {
 						for _, x := range bb.Instrs {
 							if isRelease(x) {
+								if d, ok := x.(*ssa.Defer); ok && closureRelease(d.Call.Value) {
+									continue
+								}
 								// find the range loop header dominating bb
 								for d := bb; d != nil; d = d.Idom() {
 									if strings.HasPrefix(d.Comment, "rangeindex.loop") {
@@ -192,8 +264,13 @@ func enginePAIR(w *World, tier string) *EngineResult {
 						if loopHeads[x.Block()] {
 							return true
 						}
-						if _, ok := x.(*ssa.Return); ok {
+						switch y := x.(type) {
+						case *ssa.Return:
 							return inner(x)
+						case *ssa.Defer:
+							return closureRelease(y.Call.Value)
+						case *ssa.Call:
+							return closureRelease(y.Call.Value)
 						}
 						return false
 					}
@@ -237,6 +314,10 @@ func enginePAIR(w *World, tier string) *EngineResult {
 					return false
 				}
 				bad, where := pathWithoutRelease(b, i, isRelease, exempt)
+				if !bad && orderBad != "" {
+					r.violated("PAIR-order", fnKey(fn), construct, orderBad, pos)
+					continue
+				}
 				if bad && !returned {
 					r.violated("PAIR", fnKey(fn), construct, "a path from this call reaches the exit at "+w.pos(blockPos(where))+" without calling, deferring or returning the restore closure", pos)
 				} else if bad {
